@@ -87,6 +87,16 @@ def instances(tier, rng):
                 r["opt"] = {"use_subgraph_scanning_lowerbound": True}
                 r["scan_size"] = size
                 insts.append(r)
+    # every instance that scans windows is also handed over in two other insertion orders of its nodes and edges (the windows
+    # are cut from a topological order the library computes; what it is given first must not matter)
+    more = []
+    for r in insts:
+        if "scan_size" in r:
+            for _ in range(2):
+                x = dict(r)
+                x["order"] = rng.randrange(1, 10 ** 6)
+                more.append(x)
+    insts += more
     return C.with_ids(insts)
 
 
